@@ -259,7 +259,7 @@ class TGen:
 
 
 def gen_cases(rng, tier):
-    nw, np_, nt = (150, 450, 260) if tier == "quick" else (4000, 20000, 6000)
+    nw, np_, nt = (120, 320, 170) if tier == "quick" else (4000, 20000, 6000)
     cases = []
     for i in range(nw):
         cases.append({"kind": "write", "m": gen_manifest(rng, wf=(rng.random() < 0.8))})
